@@ -1,4 +1,5 @@
 import GufoSnmp.Lemmas.PrivLemmas
+import GufoSnmp.Lemmas.RecvErr
 /-!
 # C04 — only the reply to the outstanding request is ever delivered
 
@@ -264,6 +265,165 @@ theorem recvLoop_recvPdu (C : Ciphers) (op : OpKind) (it : Option GetIter) : ∀
         | none => exact recvLoop_recvPdu C op it rest s'
       | err e => exact Or.inr ⟨rfl, Or.inl ⟨_, rfl⟩⟩
       | panic w => exact Or.inr ⟨rfl, Or.inr ⟨_, rfl⟩⟩
+
+/-! ## Completeness of the acceptance test: what matches IS delivered, what does not IS skipped -/
+
+/-- **C04.accept_community**: a datagram that decodes as a message of the session's version, carries the
+session's community and answers the outstanding request id is delivered (v1 / v2c) -/
+theorem accept_community (C : Ciphers) (cs : CommunitySession) (dg : Bytes) (m : CommunityMsg)
+    (hd : communityMsgTryFrom cs.version dg = .ok m) (hc : m.community = cs.community)
+    (hr : m.pdu.check cs.requestId = true) :
+    (Session.community cs).recvOne C dg = (.community cs, .ok (some m.pdu)) := by
+  simp only [Session.recvOne, hd, unwrapCommunity, hc, hr]
+  simp
+
+/-- **C04.skip_community**: a well-formed message of the session's version with another community or
+another request id is skipped: no value, no exception, the session unchanged -/
+theorem skip_community (C : Ciphers) (cs : CommunitySession) (dg : Bytes) (m : CommunityMsg)
+    (hd : communityMsgTryFrom cs.version dg = .ok m)
+    (hn : m.community ≠ cs.community ∨ m.pdu.check cs.requestId = false) :
+    (Session.community cs).recvOne C dg = (.community cs, .ok none) := by
+  simp only [Session.recvOne, hd, unwrapCommunity]
+  cases hn with
+  | inl h => simp [h]
+  | inr h => simp [h]
+
+/-- the acceptance test of the v3 socket, as a proposition -/
+def V3Match (vs : V3Session) (m : V3Msg) (sp : ScopedPdu) : Prop :=
+  vs.userName = m.usm.userName ∧ (vs.engineId = [] ∨ m.usm.engineId = vs.engineId) ∧ m.msgId = vs.msgId ∧
+    sp.pdu.check vs.requestId = true
+
+/-- **C04.accept_v3**: a clear-text v3 message that names the session's user, its engine id (any engine
+id while none is known), the outstanding msgID and request id is delivered -/
+theorem accept_v3 (C : Ciphers) (vs : V3Session) (dg : Bytes) (m : V3Msg) (sp : ScopedPdu)
+    (hd : v3TryFrom dg = .ok m) (hp : m.data = .plaintext sp) (hm : V3Match vs m sp) :
+    ((Session.v3 vs).recvOne C dg).2 = .ok (some sp.pdu) := by
+  obtain ⟨hu, he, hi, hr⟩ := hm
+  simp only [Session.recvOne, hd, unwrapV3, hp]
+  have hcond : (vs.userName == m.usm.userName && (vs.engineId.isEmpty || m.usm.engineId == vs.engineId)
+      && m.msgId == vs.msgId && sp.pdu.check vs.requestId) = true := by
+    rw [hu, hi, hr]
+    cases he with
+    | inl h => simp [h]
+    | inr h => simp [h]
+  simp only [hcond]
+  rfl
+
+/-- **C04.skip_v3**: a clear-text v3 message that fails any clause of the test is skipped and leaves the
+session (engine id, clock, ids, keys) exactly as it was -/
+theorem skip_v3 (C : Ciphers) (vs : V3Session) (dg : Bytes) (m : V3Msg) (sp : ScopedPdu)
+    (hd : v3TryFrom dg = .ok m) (hp : m.data = .plaintext sp)
+    (hn : vs.userName ≠ m.usm.userName ∨ (vs.engineId ≠ [] ∧ m.usm.engineId ≠ vs.engineId) ∨ m.msgId ≠ vs.msgId ∨
+      sp.pdu.check vs.requestId = false) :
+    (Session.v3 vs).recvOne C dg = (.v3 vs, .ok none) := by
+  simp only [Session.recvOne, hd, unwrapV3, hp]
+  have hcond : (vs.userName == m.usm.userName && (vs.engineId.isEmpty || m.usm.engineId == vs.engineId)
+      && m.msgId == vs.msgId && sp.pdu.check vs.requestId) = false := by
+    rcases hn with h | ⟨h1, h2⟩ | h | h
+    · simp [h]
+    · have : vs.engineId.isEmpty = false := by
+        cases hv : vs.engineId with
+        | nil => exact absurd hv h1
+        | cons _ _ => rfl
+      simp [this, h2]
+    · simp [h]
+    · simp [h]
+  simp only [hcond]
+  rfl
+
+/-- the session after skipping a run of datagrams (`none` if one of them is not skipped) -/
+def skipAll (C : Ciphers) : Session → List Bytes → Option Session
+  | s, [] => some s
+  | s, dg :: rest =>
+    match s.recvOne C dg with
+    | (s', .ok none) => skipAll C s' rest
+    | _ => none
+
+/-- **C04.eventually_delivered**: however many non-matching datagrams come first, the first acceptable
+datagram is the one whose conversion the caller gets, and whatever follows it stays unread -/
+theorem eventually_delivered (C : Ciphers) (op : OpKind) (it : Option GetIter) :
+    ∀ (pre : List Bytes) (s s1 s2 : Session) (dg : Bytes) (pdu : Pdu) (rest : List Bytes),
+    skipAll C s pre = some s1 → s1.recvOne C dg = (s2, .ok (some pdu)) →
+    s.recvLoop C op it (pre ++ dg :: rest) = ((toPython op pdu it).1, s2, (toPython op pdu it).2, rest)
+  | [], s, s1, s2, dg, pdu, rest, hs, hd => by
+    simp only [skipAll, Option.some.injEq] at hs
+    subst hs
+    exact deliver C s s2 op it dg pdu rest hd
+  | d :: pre, s, s1, s2, dg, pdu, rest, hs, hd => by
+    simp only [skipAll] at hs
+    cases hr : s.recvOne C d with
+    | mk s' r =>
+      rw [hr] at hs
+      cases r with
+      | ok o =>
+        cases o with
+        | none =>
+          simp only at hs
+          rw [List.cons_append, skip_continues C s s' op it d _ hr]
+          exact eventually_delivered C op it pre s' s1 s2 dg pdu rest hs hd
+        | some p => simp at hs
+      | err e => simp at hs
+      | panic w => simp at hs
+
+/-- for v1 / v2c the skipped datagrams never change the session -/
+theorem skipAll_community (C : Ciphers) (cs : CommunitySession) : ∀ (pre : List Bytes),
+    (∀ d ∈ pre, ∃ m, communityMsgTryFrom cs.version d = .ok m ∧
+      (m.community ≠ cs.community ∨ m.pdu.check cs.requestId = false)) →
+    skipAll C (.community cs) pre = some (.community cs)
+  | [], _ => rfl
+  | d :: pre, h => by
+    obtain ⟨m, hd, hn⟩ := h d (by simp)
+    simp only [skipAll, skip_community C cs d m hd hn]
+    exact skipAll_community C cs pre (fun x hx => h x (by simp [hx]))
+
+/-- **C04.reply_after_strays** (v1 / v2c): any number of messages with a foreign community or a foreign
+request id, then the reply: the reply's PDU is what the conversion layer gets -/
+theorem reply_after_strays (C : Ciphers) (cs : CommunitySession) (op : OpKind) (it : Option GetIter)
+    (pre : List Bytes) (dg : Bytes) (m : CommunityMsg) (rest : List Bytes)
+    (hpre : ∀ d ∈ pre, ∃ m', communityMsgTryFrom cs.version d = .ok m' ∧
+      (m'.community ≠ cs.community ∨ m'.pdu.check cs.requestId = false))
+    (hd : communityMsgTryFrom cs.version dg = .ok m) (hc : m.community = cs.community)
+    (hr : m.pdu.check cs.requestId = true) :
+    (Session.community cs).recvLoop C op it (pre ++ dg :: rest) =
+      ((toPython op m.pdu it).1, .community cs, (toPython op m.pdu it).2, rest) :=
+  eventually_delivered C op it pre _ _ _ dg m.pdu rest (skipAll_community C cs pre hpre)
+    (accept_community C cs dg m hd hc hr)
+
+/-! ## A datagram that is not a message of the session's version ends the call with `SnmpDecodeError` -/
+
+/-- **C04.error_is_decode_error**: whenever one datagram makes the receive step fail, the failure is of
+the `SnmpDecodeError` class (error table generated from `src/error.rs`): no other exception class can
+come out of the decoding of a datagram -/
+theorem recvOne_err_class (C : Ciphers) (s : Session) (dg : Bytes) (e : SnmpError)
+    (h : (s.recvOne C dg).2 = .err e) : pyClass e = .SnmpDecodeError :=
+  GufoSnmp.recvOne_decode_class C s dg e h
+
+/-- **C04.malformed_raises_decode_error**: the call ends with `SnmpDecodeError`, later datagrams unread -/
+theorem malformed_raises_decode_error (C : Ciphers) (s s' : Session) (op : OpKind) (it : Option GetIter)
+    (dg : Bytes) (rest : List Bytes) (e : SnmpError) (h : s.recvOne C dg = (s', .err e)) :
+    s.recvLoop C op it (dg :: rest) = (.raise .SnmpDecodeError, s', it, rest) := by
+  rw [malformed_ends C s s' op it dg rest e h, recvOne_err_class C s dg e (by rw [h])]
+
+/-- **C04.wrong_version**: a perfectly well-formed message of the *other* community-based version is
+refused with `InvalidVersion` (→ `SnmpDecodeError`): a v1 session never accepts a v2c reply or vice versa -/
+theorem wrong_version (v v' : Nat) (dg : Bytes) (m : CommunityMsg) (hne : (v' : Int) ≠ (v : Int))
+    (h : communityMsgTryFrom v' dg = .ok m) : communityMsgTryFrom v dg = .err .InvalidVersion := by
+  unfold communityMsgTryFrom at h ⊢
+  obtain ⟨⟨env, tail⟩, h1, h⟩ := bind_eq_ok h
+  rw [h1]
+  simp only [bind_ok] at h ⊢
+  split at h
+  · cases h
+  · rename_i ht
+    rw [if_neg ht]
+    obtain ⟨⟨vc, t1⟩, h2, h⟩ := bind_eq_ok h
+    rw [h2]
+    simp only [bind_ok] at h ⊢
+    split at h
+    · cases h
+    · rename_i hv
+      simp only [ne_eq, Decidable.not_not] at hv
+      rw [if_pos (by rw [hv]; exact hne)]
 
 /-- the events of a session's life -/
 inductive Ev where
